@@ -635,6 +635,20 @@ func (c *EvalCtx) call(n *Node) Val {
 			}
 		}
 		return out
+	case "index_rune":
+		t := arg(0).(Text)
+		rs, _ := arg(1).(Text).concrete()
+		if len(t.Frags) != 1 || t.Frags[0].Kind != FAtom || len(rs) != 1 {
+			specErr(n, "index_rune(atom, \"c\")")
+		}
+		return mkVar(fmt.Sprintf("indexrune!%s!%d", t.Frags[0].Atom, rs[0]), SInt)
+	case "substr":
+		t := arg(0).(Text)
+		if len(t.Frags) != 1 || t.Frags[0].Kind != FAtom {
+			specErr(n, "substr of non-atom")
+		}
+		a := t.Frags[0].Atom
+		return subAtom(a, c.evalTerm(n.Kids[1]), c.evalTerm(n.Kids[2]), mkVar("len!"+a, SInt))
 	case "contains_str":
 		sl, ok := arg(0).(SliceV)
 		if !ok {
